@@ -88,6 +88,40 @@ fn reassembly_strategy(tier: Tier) -> BoxedStrategy<Reassembly> {
         .boxed()
 }
 
+/// One packet near the largest size the library accepts (65536 fragments), alone or with small neighbours.
+fn huge_reassembly_strategy() -> BoxedStrategy<Reassembly> {
+    let f = FRAG as u32;
+    let size = prop_oneof![
+        2 => Just(65536 * f),
+        1 => Just(65536 * f - 1),
+        1 => Just(65535 * f + 1),
+        1 => Just(65535 * f),
+        2 => (20_000u32..=65536, prop_oneof![Just(-1i32), Just(0), Just(1)]).prop_map(move |(k, d)| (((k * f) as i64 + d as i64).min((65536 * f) as i64)) as u32),
+    ];
+    let small = (0u8..3, 1u8..4, boundary_size(2)).prop_map(|(ch, mode, size)| SendSpec { ch, mode, size });
+    (
+        any::<u64>(),
+        prop_oneof![Just(0u32), (0u32..4).prop_map(|d| PKT_MASK - d), 0u32..=PKT_MASK],
+        prop_oneof![Just(0u32), (0u32..70_000).prop_map(|d| u32::MAX - d), any::<u32>()],
+        (0u8..3, prop_oneof![Just(1u8), Just(2u8), Just(3u8)], size).prop_map(|(ch, mode, size)| SendSpec { ch, mode, size }),
+        proptest::collection::vec(small, 0..3),
+        any::<bool>(),
+        proptest::collection::vec(any::<u16>(), 0..200),
+        0u8..4,
+        proptest::collection::vec((any::<u16>(), 0u8..6, any::<u16>()).prop_map(|(sel, kind, at)| Forge { sel, kind, at }), 0..4),
+        any::<bool>(),
+    )
+        .prop_map(|(seed, pkt_base, frm_base, big, mut small, big_first, script, receive_every, forges, reverse_rest)| {
+            if big_first {
+                small.insert(0, big);
+            } else {
+                small.push(big);
+            }
+            Reassembly { seed, pkt_base, frm_base, packets: small, script, per_frame: 1, receive_every, forges, reverse_rest }
+        })
+        .boxed()
+}
+
 fn run_reassembly(r: &Reassembly) -> CaseResult {
     let mut classes: Vec<&'static str> = Vec::new();
     let total: usize = r.packets.iter().map(|p| ((p.size as usize + FRAG - 1) / FRAG).max(1) * FRAG).sum::<usize>() + FRAG;
@@ -331,6 +365,12 @@ fn run_reassembly(r: &Reassembly) -> CaseResult {
             classes.push("legitimately_skipped");
         }
     }
+    if r.packets.iter().any(|p| p.size as usize > 20_000 * FRAG) {
+        classes.push("huge_packet_20000_to_65536_fragments");
+    }
+    if r.packets.iter().any(|p| p.size as usize == 65536 * FRAG) {
+        classes.push("maximum_size_packet");
+    }
     let multi = r.packets.iter().any(|p| p.size as usize > FRAG);
     let shuffled = script_len > 0 || r.reverse_rest;
     if multi {
@@ -412,7 +452,14 @@ impl Check for C04 {
 
     fn strategy(&self, tier: Tier) -> BoxedStrategy<Case> {
         let p = GenParams { max_ticks: tier.pick(100, 300), max_sends: 3, max_frags: tier.pick(8, 40), low_bandwidth: true, tail: true, modes: [1, 2, 2, 4], ..GenParams::default() };
-        prop_oneof![3 => reassembly_strategy(tier).prop_map(Case::Reassembly), 1 => scenario_strategy(&p).prop_map(Case::EndToEnd)].boxed()
+        // a few cases per run carry one packet of up to the maximum size (65536 fragments, ~95 MB; seconds and
+        // ~0.6 GB each, hence the low weight)
+        prop_oneof![
+            tier.pick(6000, 3000) => reassembly_strategy(tier).prop_map(Case::Reassembly),
+            tier.pick(2000, 1000) => scenario_strategy(&p).prop_map(Case::EndToEnd),
+            tier.pick(5, 2) => huge_reassembly_strategy().prop_map(Case::Reassembly)
+        ]
+        .boxed()
     }
 
     fn cases(&self, tier: Tier) -> u64 {
@@ -428,7 +475,7 @@ impl Check for C04 {
     }
 
     fn rule(&self) -> String {
-        "two case kinds. Reassembly: 1-5 packets with boundary-biased sizes (0, 1, k*1448+{-1,0,+1}, uniform) are fragmented by a genuine sender HalfConnection; its datagrams are re-packed unmodified into data frames with fresh increasing frame ids in a generated order (permutation, repetition, interleaving across packets, repeats after completion, the rest in order or reversed) and handed to a receiver, with receive() called at generated points; fragments with the same packet id but a disagreeing header (last-fragment id, channel, window / channel parent lead) and different content are injected after the first genuine fragment of that packet. EndToEnd: SimPair with faults and bandwidth ceilings low enough to cut packets across flushes. Oracle: no emitted frame exceeds 1472 bytes; every delivery byte-identical to its submission; a packet whose every fragment arrived is delivered unless legitimately skipped (non-Reliable and some later packet was delivered, which lets the receive window move past it); forged fragments change nothing. Non-trivial = a multi-fragment packet whose fragments arrived out of order / repeated / interleaved (Reassembly), or a packet cut across flushes (EndToEnd).".into()
+        "two case kinds. Reassembly: 1-5 packets with boundary-biased sizes (0, 1, k*1448+{-1,0,+1}, uniform; a few cases per run with one packet of 20000..65536 fragments incl. exactly the maximum 65536*1448 bytes and its neighbours) are fragmented by a genuine sender HalfConnection; its datagrams are re-packed unmodified into data frames with fresh increasing frame ids in a generated order (permutation, repetition, interleaving across packets, repeats after completion, the rest in order or reversed) and handed to a receiver, with receive() called at generated points; fragments with the same packet id but a disagreeing header (last-fragment id, channel, window / channel parent lead) and different content are injected after the first genuine fragment of that packet. EndToEnd: SimPair with faults and bandwidth ceilings low enough to cut packets across flushes. Oracle: no emitted frame exceeds 1472 bytes; every delivery byte-identical to its submission; a packet whose every fragment arrived is delivered unless legitimately skipped (non-Reliable and some later packet was delivered, which lets the receive window move past it); forged fragments change nothing. Non-trivial = a multi-fragment packet whose fragments arrived out of order / repeated / interleaved (Reassembly), or a packet cut across flushes (EndToEnd).".into()
     }
 
     fn assumptions(&self) -> Vec<String> {
